@@ -15,7 +15,8 @@ macro_rules! dispatch {
                 if let Some(case) = $replay {
                     let mut run: Run = $run($name);
                     run.strict = true; // an explicit replay shows the failure even if it is a listed finding
-                    match $m::replay(&run, &case) {
+                    let replayed = match verif::oracle::replay_case(&run, &case) { Some(r) => r, None => $m::replay(&run, &case) };
+                    match replayed {
                         Ok(()) => { println!("replay: property {} held on this case", $name); 0 }
                         Err(f) => {
                             println!("  failure kind={} : {}", f.kind, f.message);
@@ -25,8 +26,12 @@ macro_rules! dispatch {
                     }
                 } else {
                     let run: Run = $run($name);
-                    run.corpus(&|r, c| $m::replay(r, c));
-                    $m::run(&run);
+                    // VERIF_ONLY_ORACLE: development switch (byte-coded parts alone); never set by the registered commands
+                    if std::env::var("VERIF_ONLY_ORACLE").is_err() {
+                        run.corpus(&|r, c| match verif::oracle::replay_case(r, c) { Some(x) => x, None => $m::replay(r, c) });
+                        $m::run(&run);
+                    }
+                    verif::oracle::parts_of_check(&run);
                     run.finish($m::LEVEL, $m::RULE, $m::EXHAUSTIVE, $m::ASSUMPTIONS)
                 }
             } )*
@@ -212,6 +217,14 @@ fn main() {
                         let r = match id.as_str() {
                             "C19" => Some(c19::replay_artifact(std::path::Path::new(path))),
                             "C01" => Some(c01::replay_artifact(std::path::Path::new(path))),
+                            other if verif::oracle::Mode::parse(other).is_some() => {
+                                // a saved input of the libFuzzer target `oracle` (raw bytes): executed in-process, strictly
+                                driver::install_panic_hook();
+                                let mut run = Run::new(verif::oracle::Mode::parse(other).unwrap().id(), tier, seed);
+                                run.strict = true;
+                                let bytes = std::fs::read(path).unwrap_or_default();
+                                Some(verif::oracle::run_bytes(&run, verif::oracle::Mode::parse(other).unwrap(), &bytes, &mut verif::runner::Stats::new()))
+                            }
                             _ => None,
                         };
                         match r {
